@@ -49,6 +49,29 @@ package requestf
 //@   loop 0 invariant [C05] validR(readBuf) && readBuf.buf.i >= p0 && len(st.SBuffer) == length
 //@   loop 1 invariant [C05] validR(readBuf) && readBuf.buf.i >= p0 && st.Context != nil
 //@   loop 2 invariant [C05] validR(readBuf) && readBuf.buf.i >= p0 && st.Status != nil
+// tag skeleton of the reader (derived from RequestF.tars by tools/gencontracts.py: reader_skeleton)
+//@   site ).Read#0 assert [C04] $2 == 1 && $3 == true
+//@   site ).Read#1 assert [C04] $2 == 2 && $3 == true
+//@   site ).Read#2 assert [C04] $2 == 3 && $3 == true
+//@   site ).Read#3 assert [C04] $2 == 4 && $3 == true
+//@   site ).Read#4 assert [C04] $2 == 5 && $3 == true
+//@   site ).Read#5 assert [C04] $2 == 6 && $3 == true
+//@   site ).Read#6 assert [C04] $2 == 0 && $3 == true
+//@   site ).Read#7 assert [C04] $2 == 0 && $3 == true
+//@   site ).Read#8 assert [C04] $2 == 0 && $3 == true
+//@   site ).Read#10 assert [C04] $2 == 8 && $3 == true
+//@   site ).Read#11 assert [C04] $2 == 0 && $3 == true
+//@   site ).Read#12 assert [C04] $2 == 0 && $3 == true
+//@   site ).Read#13 assert [C04] $2 == 1 && $3 == true
+//@   site ).Read#14 assert [C04] $2 == 0 && $3 == true
+//@   site ).Read#15 assert [C04] $2 == 0 && $3 == true
+//@   site ).Read#16 assert [C04] $2 == 1 && $3 == true
+//@   sites ).Read = 17
+//@   site ).Skip#0 assert [C04] $1 == 7 && $2 == true
+//@   site ).Skip#1 assert [C04] $1 == 0 && $2 == 0 && $3 == true
+//@   site ).Skip#2 assert [C04] $1 == 8 && $2 == 9 && $3 == true
+//@   site ).Skip#3 assert [C04] $1 == 8 && $2 == 10 && $3 == true
+//@   sites ).Skip = 4
 //@   safety [C05]
 //
 //@ func (*RequestPacket).ReadBlock
@@ -98,6 +121,28 @@ package requestf
 //@   loop 0 invariant [C05] validR(readBuf) && readBuf.buf.i >= p0 && len(st.SBuffer) == length
 //@   loop 1 invariant [C05] validR(readBuf) && readBuf.buf.i >= p0 && st.Status != nil
 //@   loop 2 invariant [C05] validR(readBuf) && readBuf.buf.i >= p0 && st.Context != nil
+// tag skeleton of the reader (derived from RequestF.tars by tools/gencontracts.py: reader_skeleton)
+//@   site ).Read#0 assert [C04] $2 == 1 && $3 == true
+//@   site ).Read#1 assert [C04] $2 == 2 && $3 == true
+//@   site ).Read#2 assert [C04] $2 == 3 && $3 == true
+//@   site ).Read#3 assert [C04] $2 == 4 && $3 == true
+//@   site ).Read#4 assert [C04] $2 == 5 && $3 == true
+//@   site ).Read#5 assert [C04] $2 == 0 && $3 == true
+//@   site ).Read#6 assert [C04] $2 == 0 && $3 == true
+//@   site ).Read#7 assert [C04] $2 == 0 && $3 == true
+//@   site ).Read#9 assert [C04] $2 == 0 && $3 == true
+//@   site ).Read#10 assert [C04] $2 == 0 && $3 == true
+//@   site ).Read#11 assert [C04] $2 == 1 && $3 == true
+//@   site ).Read#12 assert [C04] $2 == 8 && $3 == false
+//@   site ).Read#13 assert [C04] $2 == 0 && $3 == true
+//@   site ).Read#14 assert [C04] $2 == 0 && $3 == true
+//@   site ).Read#15 assert [C04] $2 == 1 && $3 == true
+//@   sites ).Read = 16
+//@   site ).Skip#0 assert [C04] $1 == 6 && $2 == true
+//@   site ).Skip#1 assert [C04] $1 == 0 && $2 == 0 && $3 == true
+//@   site ).Skip#2 assert [C04] $1 == 8 && $2 == 7 && $3 == true
+//@   site ).Skip#3 assert [C04] $1 == 8 && $2 == 9 && $3 == false
+//@   sites ).Skip = 4
 //@   safety [C05]
 //
 //@ func (*ResponsePacket).ReadBlock
